@@ -67,6 +67,7 @@ int main(int argc, char **argv){
             bool small = true;
             if (output == -1){ for (int k=0;k<outs;k++) small = small && ((sc[(size_t) i * outs + k] * std::fabs(c[(size_t) i * outs + k]) / norm[k]) <= tol); }
             else small = ((sc[i] * std::fabs(c[(size_t) i * outs + output]) / norm[output]) <= tol);
+            if (tol == 0.0) small = false;   // documented: tolerance zero proposes every admissible child
             if (small) continue;
             std::vector<int> p(idx + (size_t) i * d, idx + (size_t) (i + 1) * d);
             for (int j=0;j<d;j++) for (int kid=0;kid<(r == RuleLocal::erule::pwc ? 4 : 2);kid++){ int q = lpKid(r, p[j], kid); if (q < 0) continue; if (!g.ll.empty() && g.ll[j] >= 0 && lpLevel(r, q) > g.ll[j]) continue; std::vector<int> c2 = p; c2[j] = q; if (!have.count(c2)) expect.insert(c2); }
@@ -79,7 +80,7 @@ int main(int argc, char **argv){
       } else if (op == "A"){ grid.setAnisotropicRefinement(type_iptotal, 2, output < 0 ? 0 : output, g.ll);
       } else if (op == "U"){ if (g.family == "localp" || g.family == "wavelet"){ fpsym_finish(); return 0; } grid.updateGrid(g.depth + 1, IO::getDepthTypeString(g.type), g.aw, g.ll);
       } else if (op == "C"){ grid.clearRefinement();
-      } else if (op == "M"){ grid.mergeRefinement(); zeroed = true; is_refine = false;
+      } else if (op == "M"){ bool had_needed = grid.getNumNeeded() > 0; grid.mergeRefinement(); if (had_needed) zeroed = true; is_refine = !had_needed;   // without needed points the merge is a no-op
       } else { fprintf(stderr, "bad op %s\n", op.c_str()); return 9; }
       Snapshot after = snap(grid, probe);
       if (is_refine){
